@@ -166,7 +166,8 @@ def reorder(b: Built, idx: int, rot: int) -> bool:
 def replacement(kind: int, tag, vsel: int, vals, lc: LineCounter):
     """A fresh node of solver-chosen kind with the given (possibly symbolic)
     tag.  kind 0 scalar (value from palette), 1 sequence, 2 mapping,
-    3 empty sequence, 4 empty mapping."""
+    3 empty sequence, 4 empty mapping.  The mapping is {x: 1}: the shape of the
+    zoo's Sub and Trap classes, so that a class tag on it can construct."""
     m = lc.next()
     if kind == 0:
         return yaml.ScalarNode(tag, pick(vals, vsel), m, m)
@@ -174,7 +175,7 @@ def replacement(kind: int, tag, vsel: int, vals, lc: LineCounter):
         return yaml.SequenceNode(tag, [yaml.ScalarNode(T_STR, 'x', m, m)],
                                  m, m)
     if kind == 2:
-        return yaml.MappingNode(tag, [(yaml.ScalarNode(T_STR, 'k', m, m),
+        return yaml.MappingNode(tag, [(yaml.ScalarNode(T_STR, 'x', m, m),
                                        yaml.ScalarNode(T_INT, '1', m, m))],
                                 m, m)
     if kind == 3:
